@@ -259,7 +259,16 @@ func (engine *Engine) DialAsyncTimeout(network, addr string, timeout time.Durati
 			h(c, nil)
 		})
 	} else if timeout > 0 {
-		_ = c.setDeadline(&c.wTimer, ErrDialTimeout, time.Now().Add(timeout))
+		// the poller may have reported the result already: the dial timer is
+		// armed only while the callback is still pending, else it would
+		// replace, or re-arm, a write deadline the callback has set.
+		c.mux.Lock()
+		if !c.closed && c.onConnected != nil && c.wTimer == nil {
+			c.wTimer = engine.AfterFunc(timeout, func() {
+				_ = c.closeWithError(ErrDialTimeout)
+			})
+		}
+		c.mux.Unlock()
 	}
 
 	return nil
